@@ -199,7 +199,9 @@ class ModeRoundTrip(Harness):
             before, after, r = regs
             for n in (2, 3, 4):
                 off, cnt, sw = r[n]
-                i = sw - off
+                # the on/off byte is the high byte of the 4th register of a 4-register (v1) group and of the 3rd
+                # register of a 6-register (v2) group — not taken from the library's eco_mode_N_switch definition
+                i = 3 if cnt == 4 else 2
                 conj = [to_z3(after[n][i]) / 256 == 0, to_z3(after[n][i]) % 256 == to_z3(before[n][i]) % 256]
                 conj += [to_z3(after[n][j]) == to_z3(before[n][j]) for j in range(cnt) if j != i]
                 ex.check(z3.And(conj), f"eco group {n} is not switched off (or other bytes of it changed)")
@@ -228,7 +230,9 @@ class ModeRoundTrip(Harness):
             before, after, r = regs
             for n in (2, 3, 4):
                 off, cnt, sw = r[n]
-                i = sw - off
+                # the on/off byte is the high byte of the 4th register of a 4-register (v1) group and of the 3rd
+                # register of a 6-register (v2) group — not taken from the library's eco_mode_N_switch definition
+                i = 3 if cnt == 4 else 2
                 if after[n][i] >> 8 != 0 or after[n][i] & 255 != before[n][i] & 255 or \
                         any(after[n][j] != before[n][j] for j in range(cnt) if j != i):
                     return {"outcome": "roundtrip", "violation": f"{tag}: eco group {n} not switched off cleanly", "observed": obs}
